@@ -187,7 +187,7 @@ class Norinori(Spec):
             if len(r) > 2:
                 c = r.pop()
                 rooms.append([c])
-        return dict(h=h, w=w, rooms=[[list(c) for c in r] for r in rooms if r])
+        return dict(h=h, w=w, rooms=[[list(c) for c in r] for r in rooms if r], _planted=[list(c) for c in sorted(black)])
 
     def solve(self, inst):
         from cspuz.puzzle import norinori
@@ -838,6 +838,7 @@ class Lits(Spec):
         # plant disjoint tetrominoes (random growth), then grow one room around each
         owner = {}
         k = 0
+        spare = None
         if h >= 3 and w >= 3 and draw(st.integers(0, 2)) == 0:
             # a room that contains a whole plus shape (a T can then sit on a cell whose four neighbours
             # all belong to its own room)
@@ -845,6 +846,8 @@ class Lits(Spec):
             for c in ((cy, cx), (cy - 1, cx), (cy + 1, cx), (cy, cx - 1), (cy, cx + 1)):
                 owner[c] = 0
             k = 1
+            # the planted marking of this room: a T centred on (cy, cx), i.e. the plus without one arm
+            spare = ((cy - 1, cx), (cy + 1, cx), (cy, cx - 1), (cy, cx + 1))[(cy + cx) % 4]
         for _ in range(draw(st.integers(1, max(1, h * w // draw(st.sampled_from([4, 6, 8])))))):
             free = [c for c in cells if c not in owner]
             if len(free) < 4:
@@ -860,6 +863,7 @@ class Lits(Spec):
                 for c in shape:
                     owner[c] = k
                 k += 1
+        planted = [list(c) for c in sorted(owner) if c != spare]
         if k == 0:
             return dict(h=h, w=w, rooms=[[list(c) for c in cells]])
         free = [c for c in cells if c not in owner]
@@ -875,7 +879,7 @@ class Lits(Spec):
         rooms = [[] for _ in range(k)]
         for c in cells:
             rooms[owner[c]].append(list(c))
-        return dict(h=h, w=w, rooms=rooms)
+        return dict(h=h, w=w, rooms=rooms, _planted=planted)
 
     def solve(self, inst):
         from cspuz.puzzle import lits
